@@ -1,6 +1,7 @@
 package gvc
 
 import (
+	"math/big"
 	"os"
 	"runtime/debug"
 	"fmt"
@@ -430,7 +431,14 @@ func (u *Unit) zeroVal(t types.Type) Val {
 // value exists at function entry (regions are input regions, cells are old).
 func (u *Unit) freshVal(st *State, t types.Type, name string, input bool) Val {
 	if isNamed(t, "time", "Time") {
-		return TimeV{NS: u.newInt(name + "_ns")}
+		// A-TIME: instants within 2^62 seconds of the Unix epoch
+		ns := u.newInt(name + "_ns")
+		lim := new(big.Int).Mul(pow2(62), big.NewInt(1000000000))
+		u.assume(And(Le(BigLit(new(big.Int).Neg(lim)), ns), Le(ns, BigLit(lim))))
+		if input {
+			u.inputs = append(u.inputs, InputLeaf{Name: name, Kind: "int", T: ns, Type: "time.Time(ns)"})
+		}
+		return TimeV{NS: ns}
 	}
 	switch x := t.Underlying().(type) {
 	case *types.Basic:
